@@ -174,7 +174,7 @@ def bounded_small(ctx):
     if chunk:
         jobs.append(chunk)
     with mp.Pool(min(12, os.cpu_count() or 1)) as pool:
-        for res in pool.imap_unordered(_rt_worker, jobs):
+        for res in pool.imap(_rt_worker, jobs):
             for spec, h, v, r, bad in res:
                 ctx.violation(bad[0], '{} header={} varnames={} via {} : {}'.format(_short(spec), h, v, r, bad[1]),
                               {'fn': 'checks.C06:replay_roundtrip', 'args': dict(spec=spec, header=h, varnames=v, route=r)})
@@ -232,7 +232,7 @@ def bounded_families(ctx):
                 ctx.case(('chain', base, repr(chain), h, v, r))
             jobs.append([(spec, variants)])
     with mp.Pool(min(12, os.cpu_count() or 1)) as pool:
-        for res in pool.imap_unordered(_spec_worker, jobs):
+        for res in pool.imap(_spec_worker, jobs):
             for spec, h, v, r, bad in res:
                 ctx.violation(bad[0], '{} header={} varnames={} via {} : {}'.format(_short(spec), h, v, r, bad[1]),
                               {'fn': 'checks.C06:replay_roundtrip', 'args': dict(spec=spec, header=h, varnames=v, route=r)})
@@ -451,6 +451,29 @@ def bounded_reader(ctx):
                 seen.add(t)
                 texts.append(t)
     rng = random.Random(ctx.seed)
+    # two independent single corruptions of the same base text (seeded sample)
+    ndouble = 60000 if thorough else 6000
+    singles = {}
+    for _ in range(ndouble):
+        b = rng.choice(bases)
+        if b not in singles:
+            singles[b] = [t for t in mutations(b, False)]
+        t = rng.choice(singles[b])
+        ms = list(itertools.islice(mutations(t, False), 0, None)) if len(t) < 40 else None
+        if ms is None:
+            # long text: corrupt one more token only
+            parts = re.split(r'(\s+)', t)
+            idx = [i for i in range(0, len(parts), 2) if parts[i] != '']
+            if not idx:
+                continue
+            i = rng.choice(idx)
+            parts[i] = rng.choice(REPL).replace('{n+1}', str(_declared_n(t) + 1)).replace('{n}', str(_declared_n(t)))
+            t2 = ''.join(parts)
+        else:
+            t2 = rng.choice(ms)
+        if t2 not in seen:
+            seen.add(t2)
+            texts.append(t2)
     extra = ['', '\n', ' ', 'c', 'p', 'p cnf', '0', 'c only a comment\n', '\x00', 'p cnf 0 0', 'p cnf 0 0\n0\n', 'p cnf 0 1\n0\n',
              'p cnf 1 1\n1 0 extra\n', 'p cnf 1 1\n1\n0\n', 'p cnf 2 1\n1 c 2 0\n', 'p cnf 2 2\n1 0 2\n', 'p cnf 1 1\n%\n0\n',
              'p cnf 3 1\n1 2 3 0\n%\n0\n', 'p cnf 10 1\n1_0 0\n', 'p cnf 1_0 1\n10 0\n', 'p cnf 1 1\n١ 0\n', 'p cnf 2 1\n1 2 0\x0c\n',
@@ -461,9 +484,9 @@ def bounded_reader(ctx):
             texts.append(t)
     ctx.bounds['reader'] = ('{} valid base texts (styles: comments, one line, one token per line, no final newline, CRLF, tabs, blank lines, '
                             'comments among clauses); every prefix; every token deleted/replaced/preceded by one of {} tokens; line '
-                            'delete/duplicate/swap/insert; 24 problem-line edits; every character replaced by one of {} characters; '
+                            'delete/duplicate/swap/insert; 24 problem-line edits; every character replaced by one of {} characters; {} seeded double corruptions; '
                             '{} distinct texts; routes CNF.from_file(stream) all, parse_dimacs every 3rd, from_file(path) every {}th'.format(
-                                len(bases), len(REPL), 10 if thorough else 4, len(texts), 20 if thorough else 40))
+                                len(bases), len(REPL), 10 if thorough else 4, ndouble, len(texts), 20 if thorough else 40))
     ctx.rule('C06 reader: one case = (text, route); non-trivial iff the text differs from every valid base text; expected outcome from vlib.x_readers.dimacs_lenient')
     jobs, chunk = [], []
     nfile = 20 if thorough else 40
@@ -478,7 +501,7 @@ def bounded_reader(ctx):
         jobs.append(chunk)
     acc = [0, 0]
     with mp.Pool(min(12, os.cpu_count() or 1)) as pool:
-        for res, stats in pool.imap_unordered(_reader_worker, jobs):
+        for res, stats in pool.imap(_reader_worker, jobs):
             acc[0] += stats[0]
             acc[1] += stats[1]
             for text, route, bad in res:
